@@ -18,6 +18,9 @@ LEVEL.update({
     "C11": RULE_LEVEL + " Rules: UniqueOperationNames, LoneAnonymousOperation, SingleFieldSubscriptions (through collect_fields = the specification's CollectFields).",
     "C13": "Theorems over the model of validate.rs/defaults.rs for ALL plans (any length, order, repetitions), schemas and documents: validate = in-order concatenation of the rules run alone (complete case analysis incl. the panic and fuel outcomes), every rule restores the shared context, the default plan holds each of the 24 rules exactly once. Correspondence on random plans x documents: full error lists (code, locations) as multisets per run of one code vs the extracted model; on the implementation additionally plan-result = concatenation of single-rule runs, codes, non-empty messages, locations are node positions, JSON shape, default plan order.",
 })
+LEVEL.update({
+    "C19": "Theorems over the model of collect_fields.rs for ALL schemas, documents, selection sets: totality (fuel suffices on cyclic fragment graphs and unknown names) and, for an object parent type of a well-formed schema, exact equality with the specification's CollectFields (spec/SpecCollect.v: grouped by response key in order of first occurrence, fragments expanded once, type conditions by DoesFragmentTypeApply), plus the grouping guarantees. Correspondence: collect_fields is called on every selection set x every object type of generated documents and diffed against the extracted model and the extracted specification.",
+})
 NOTE = {}
 TECH = {}
 NOT_CLAIMED = {}
